@@ -336,7 +336,7 @@ class Library:
                     else:
                         x = 0.0 if lo <= 0.0 <= hi else (lo if lo > -INF else hi)
                     if x in (INF, -INF):
-                        raise Unfoldable(f"model is unbounded in {v._name}")
+                        raise Raised("ModelUnbounded")
                 else:
                     continue
                 val[v] = x
@@ -359,7 +359,7 @@ class Library:
             if sol is None:
                 return None
             if sol == "unbounded":
-                raise Unfoldable("the continuous part of the model is unbounded")
+                raise Raised("ModelUnbounded")   # what the library would report: the fragment built a model without a finite optimum
             for v, x in zip(open_, sol):
                 val[v] = x
         for v in cv:
